@@ -140,6 +140,8 @@ void run_case(Ctx& c) {
     }
     std::string scratch = "/tmp/verif_C35_" + std::to_string(::getpid());
     ::mkdir(scratch.c_str(), 0755);
+    // relative OUT: paths are resolved by the daemon against its working directory: keep them inside the scratch dir
+    struct Cwd { char old[4096]; Cwd(const std::string& d) { if (!::getcwd(old, sizeof old)) old[0] = 0; (void)!::chdir(d.c_str()); } ~Cwd() { if (old[0]) (void)!::chdir(old); } } cwd_guard(scratch);
 
     for (std::size_t i = 0; i < t.nrec(); ++i) {
         Rec r = t.r(i);
